@@ -1,7 +1,7 @@
 import SignaloModel.Model.Value
 import SignaloModel.Model.Registry
 import SignaloModel.Model.Spec
-import SignaloModel.Driver.Filters
+import SignaloModel.Driver.Others
 /-!
 `model_driver`: reads `<op> => <impl result>` lines (Appendix D of DESIGN.md), runs the Lean models and
 the specification functions on the same operations and reports every line where the implementation's
